@@ -93,7 +93,8 @@ BuildStep(k, rec, b, ly, s) ==
      ELSE BuildOk(k, rec, b, ly, s)
   ELSE IF rec.out.kind = "Err" THEN
      (IF Require(ExpectedOutcome(b) = rec.out.why, k, rec, "C05", "error outcome") THEN s ELSE s)
-  ELSE (IF Require(FALSE, k, rec, "C10", rec.out.kind) THEN s ELSE s)     \* Panic / Timeout match no action
+  ELSE (IF Require(FALSE, k, rec, "C10", rec.out.kind) /\ Require(FALSE, k, rec, "C05", "no Ok / documented error outcome: " \o rec.out.kind)
+        THEN s ELSE s)     \* Panic / Timeout match no action (C10: building is total; C05: no length ever produces a panic)
 
 (* ---------------- Corrupt: environment action on a built symbol, then Recover (C02 corollary) ---------------- *)
 CorruptStep(k, rec, ly, s) ==
